@@ -193,8 +193,6 @@ def classes_of(doc, scopes, names, cfg, ucyc):
                 if k in ("typedef", "enum", "const") and e == e.lower() and not e.startswith("r#"):
                     # local bindings of the emitted code are snake_case: only an all-lower-case value item can clash
                     cls.add("value-item-named-like-local-binding")
-                if k == "const" and e in bldgen.RUST_KEYWORDS:
-                    cls.add("const-named-like-keyword")
     return cls
 
 
